@@ -716,10 +716,11 @@ func (s *Store) openCollection(
 			return nil, erro
 		}
 
-		if storeSnapshotInit != nil {
-			storeSnapshotInit.Close()
-			storeSnapshotInit = nil
-		}
+		// The ref-count of storeSnapshotInit belongs to the collection
+		// (as its LowerLevelInit) and is released when the persister
+		// replaces the collection's lower level snapshot or when the
+		// collection is closed; releasing it here as well would take a
+		// ref-count away from snapshots that are still open.
 
 		return ss, erro
 	}
